@@ -21,6 +21,7 @@ FSet(names) == {FByName(names[k]) : k \in DOMAIN names}
 (* fixed_indices arrive raw (ints / slices); the selection is computed here *)
 FixedOf(raw) == LET env == MapDenoteF(d, inp, FSet(Ev.F)) IN Resolve(d, env, raw)
 TBegin  == IsEvent("begin")
+           /\ Ev.new_inputs = <<>>                      \* a run with other inputs on a kept folder is never accepted (below)
            /\ (Len(Ev.fixedraw) > 0 => ValidFixed(d, MapDenoteF(d, inp, FSet(Ev.F)), Ev.fixedraw))
            /\ Begin([F |-> FSet(Ev.F), cleanup |-> Ev.cleanup,
                      fixed |-> IF Len(Ev.fixedraw) > 0 THEN FixedOf(Ev.fixedraw) ELSE Ev.fixed]) /\ exc' = NoExc
@@ -68,7 +69,12 @@ TLoad == IsEvent("load") /\ phase = "idle" /\ UNCHANGED mvars /\ UNCHANGED exc
 (* the run was interrupted (process death / exception); Ev.disk = what is completely stored afterwards *)
 TInterrupt == IsEvent("interrupt") /\ Interrupt({<<Ev.disk[k][1], Ev.disk[k][2]>> : k \in DOMAIN Ev.disk}) /\ exc' = NoExc
 
-Next == TStored \/ TLoad \/ TInterrupt \/ TBegin \/ TCall \/ TRet \/ TFail \/ TReturn \/ TRaise \/ TReject
+(* re-running on a kept run folder (cleanup=False) with inputs that differ from the previous run's must be refused: *)
+(* serving the stored elements would return stale values                                                           *)
+TRejectChanged == IsEvent("reject") /\ phase = "idle" /\ ~Ev.cleanup
+                  /\ Ev.new_inputs # <<>> /\ Ev.new_inputs # inp /\ UNCHANGED mvars /\ UNCHANGED exc
+
+Next == TRejectChanged \/ TStored \/ TLoad \/ TInterrupt \/ TBegin \/ TCall \/ TRet \/ TFail \/ TReturn \/ TRaise \/ TReject
 Spec == Init /\ [][Next]_<<mvars, tid, l, exc>>
 
 Track == IF l > TLCGet(tid) THEN TLCSet(tid, l) ELSE TRUE
